@@ -1,4 +1,6 @@
-(* MuXferProof3: the spinlock / MU_WAITING invariant of MuProof2 (QB) lifted to Model/MuXferModel.v. *)
+(* MuXferProof3: the spinlock / MU_WAITING invariant of MuProof2 (QB, all seven clauses) lifted to Model/MuXferModel.v.
+   Since wake_waiters takes MU_WAITING back when it leaves the mutex queue empty (clear_on_release), the last clause
+   "spinlock free and MU_WAITING set -> the queue is not empty" holds over the wrapper too. *)
 From NsyncBase Require Import CSem.
 From NsyncGen Require Import Consts Sites.
 From NsyncModel Require Import MuModel MuSpec.
@@ -10,7 +12,7 @@ Import ListNotations.
 Local Open Scope Z_scope.
 
 (* ================================================================== *)
-(* Part 1: the bit part of MuProof2's queue invariant without its last clause *)
+(* Part 1: the bit part of MuProof2's queue invariant, the roles of the other threads being arbitrary *)
 (* ================================================================== *)
 (* b1 = MU_SPINLOCK, b2 = MU_WAITING of the word; k t = role of thread t (MuProof2.role) *)
 Definition QC (b1 b2 : bool) (q : list nat) (k : nat -> role) : Prop :=
@@ -19,26 +21,28 @@ Definition QC (b1 b2 : bool) (q : list nat) (k : nat -> role) : Prop :=
   (forall t cw, rel (k t) = Some cw -> (cw = true <-> q = [])) /\
   (forall t, lsr (k t) = true -> In t q) /\
   (q <> [] -> b2 = true) /\
-  (forall t, enq (k t) = true -> b2 = true).
+  (forall t, enq (k t) = true -> b2 = true) /\
+  (b1 = false -> b2 = true -> q <> []).
 
-Ltac qc_split := split; [|split; [|split; [|split; [|split]]]].
+Ltac qc_split := split; [|split; [|split; [|split; [|split; [|split]]]]].
 
 Lemma QC_ext b1 b2 q k k' : (forall t, k' t = k t) -> QC b1 b2 q k -> QC b1 b2 q k'.
 Proof.
-  intros E (B1 & B2 & C & El & Q5a & Q5b). qc_split.
+  intros E (B1 & B2 & C & El & Q5a & Q5b & Q6). qc_split.
   - intros t. rewrite E. apply B1.
   - intros t1 t2. rewrite !E. apply B2.
   - intros t cw. rewrite E. apply C.
   - intros t. rewrite E. apply El.
   - exact Q5a.
   - intros t. rewrite E. apply Q5b.
+  - exact Q6.
 Qed.
 
 Lemma QC_same b1 b2 q k t r' : QC b1 b2 q k ->
   own r' = own (k t) -> enq r' = enq (k t) -> lsr r' = lsr (k t) -> rel r' = rel (k t) ->
   QC b1 b2 q (fupd k t r').
 Proof.
-  intros (B1 & B2 & C & El & Q5a & Q5b) E1 E2 E3 E4.
+  intros (B1 & B2 & C & El & Q5a & Q5b & Q6) E1 E2 E3 E4.
   assert (forall t', own (fupd k t r' t') = own (k t')) as F1
     by (intros t'; unfold fupd; destruct (Nat.eqb_spec t' t); congruence).
   assert (forall t', enq (fupd k t r' t') = enq (k t')) as F2
@@ -54,6 +58,7 @@ Proof.
   - intros t'. rewrite F3. apply El.
   - exact Q5a.
   - intros t'. rewrite F2. apply Q5b.
+  - exact Q6.
 Qed.
 
 Lemma QC_noowner b2 q k : QC false b2 q k -> forall t, own (k t) = false.
@@ -68,7 +73,7 @@ Qed.
 Lemma QC_take b2 q k t r' : QC false b2 q k -> own r' = true -> rel r' = None -> lsr r' = false ->
   QC true true q (fupd k t r').
 Proof.
-  intros H O R L. pose proof (QC_noowner _ _ _ H) as NO. destruct H as (B1 & B2 & C & El & Q5a & Q5b).
+  intros H O R L. pose proof (QC_noowner _ _ _ H) as NO. destruct H as (B1 & B2 & C & El & Q5a & Q5b & Q6).
   assert (forall t', own (fupd k t r' t') = true -> t' = t) as U.
   { intros t'. unfold fupd. destruct (Nat.eqb_spec t' t); [auto|]. rewrite NO. discriminate. }
   qc_split.
@@ -78,6 +83,7 @@ Proof.
   - intros t' H. pose proof (U _ (lsr_own _ H)) as ->. rewrite fupd_same, L in H. discriminate H.
   - reflexivity.
   - reflexivity.
+  - intros; discriminate.
 Qed.
 
 (* the spinlock owner (an enqueuer) changes the queue to a non-empty q' that contains it if its new role says so *)
@@ -85,7 +91,7 @@ Lemma QC_enqueue b1 b2 q q' k t r' : QC b1 b2 q k -> enq (k t) = true -> own r' 
   (lsr r' = true -> In t q') -> QC b1 b2 q' (fupd k t r').
 Proof.
   intros H Et O R L. assert (own (k t) = true) as Ot by (apply enq_own, Et).
-  pose proof (QC_unique _ _ _ _ _ H Ot) as U. destruct H as (B1 & B2 & C & El & Q5a & Q5b).
+  pose proof (QC_unique _ _ _ _ _ H Ot) as U. destruct H as (B1 & B2 & C & El & Q5a & Q5b & Q6).
   assert (b2 = true) as Hb2 by (apply (Q5b t Et)).
   assert (forall t', own (fupd k t r' t') = true -> t' = t) as U'.
   { intros t'. unfold fupd. destruct (Nat.eqb_spec t' t); [auto|]. rewrite U by assumption. discriminate. }
@@ -96,13 +102,14 @@ Proof.
   - intros t' H. pose proof (U' _ (lsr_own _ H)) as ->. rewrite fupd_same in H. apply L, H.
   - intros _. exact Hb2.
   - intros t' _. exact Hb2.
+  - intros Hb. rewrite (B1 t Ot) in Hb. discriminate Hb.
 Qed.
 
 (* the owner releases the spinlock; b2' is the new MU_WAITING bit *)
 Lemma QC_release b1 b2 b2' q k t r' : QC b1 b2 q k -> own (k t) = true -> own r' = false ->
-  (q <> [] -> b2' = true) -> QC false b2' q (fupd k t r').
+  (q <> [] -> b2' = true) -> (b2' = true -> q <> []) -> QC false b2' q (fupd k t r').
 Proof.
-  intros H Ot O Hb. pose proof (QC_unique _ _ _ _ _ H Ot) as U. destruct H as (B1 & B2 & C & El & Q5a & Q5b).
+  intros H Ot O Hb Hb6. pose proof (QC_unique _ _ _ _ _ H Ot) as U. destruct H as (B1 & B2 & C & El & Q5a & Q5b & Q6).
   assert (forall t', own (fupd k t r' t') = false) as U'.
   { intros t'. unfold fupd. destruct (Nat.eqb_spec t' t); [exact O | auto]. }
   qc_split.
@@ -112,13 +119,15 @@ Proof.
   - intros t' H. apply lsr_own in H. rewrite U' in H. discriminate H.
   - exact Hb.
   - intros t' H. apply enq_own in H. rewrite U' in H. discriminate H.
+  - intros _. exact Hb6.
 Qed.
 
-(* the releaser takes the free spinlock and splits the queue *)
-Lemma QC_scan q k t wk cw keep : QC false true q k -> (cw = true <-> keep = []) ->
+(* a thread takes the free spinlock, sets MU_WAITING and leaves the queue keep (the releaser of nsync_mu_unlock_slow_
+   after its scan; wake_waiters after its transfer) *)
+Lemma QC_scan b2 q k t wk cw keep : QC false b2 q k -> (cw = true <-> keep = []) ->
   QC true true keep (fupd k t (Rrel wk cw)).
 Proof.
-  intros H Hcw. pose proof (QC_noowner _ _ _ H) as NO. destruct H as (B1 & B2 & C & El & Q5a & Q5b).
+  intros H Hcw. pose proof (QC_noowner _ _ _ H) as NO. destruct H as (B1 & B2 & C & El & Q5a & Q5b & Q6).
   assert (forall t', own (fupd k t (Rrel wk cw) t') = true -> t' = t) as U.
   { intros t'. unfold fupd. destruct (Nat.eqb_spec t' t); [auto|]. rewrite NO. discriminate. }
   qc_split.
@@ -129,6 +138,7 @@ Proof.
   - intros t' H. pose proof (U _ (lsr_own _ H)) as ->. rewrite fupd_same in H. discriminate H.
   - reflexivity.
   - reflexivity.
+  - intros; discriminate.
 Qed.
 
 Lemma QC_same_fp x x' q k t r' : QC (tb1 x) (tb2 x) q k -> FP x x' ->
@@ -200,8 +210,9 @@ Proof.
   - (* LsRelCas *) cas_split w; normt Hs' Ht.
     + cbn [t_pc role_of pcA' word queue]. split; [|exact I].
       destruct (release_spinlock_bits old) as [B1 B2]. rewrite B1, B2. subst old.
-      apply (QC_release (tb1 (word w)) (tb2 (word w))); [exact HQ | rewrite Kt; reflexivity | reflexivity |].
-      destruct HQ as (_ & _ & _ & _ & Q5 & _). exact Q5.
+      apply (QC_release (tb1 (word w)) (tb2 (word w))); [exact HQ | rewrite Kt; reflexivity | reflexivity | |].
+      * destruct HQ as (_ & _ & _ & _ & Q5 & _). exact Q5.
+      * destruct HQ as (_ & _ & _ & El & _). intros _ E. specialize (El t). rewrite Kt, E in El. now apply El.
     + c_same HQ Kt.
   - (* LsWaitLoad *) destruct (waiting w t) eqn:Ew; cbn [fst]; normt Hs' Ht; c_same HQ Kt.
   - (* LsSemP *) destruct (0 <? sem w t); cbn [fst]; [normt Hs' Ht | rewrite Hs]; c_same HQ Kt.
@@ -227,7 +238,7 @@ Proof.
       cbn [t_pc role_of pcA' word queue]. split; [|auto].
       subst old. destruct (unlock_slow_cas2_bits m (word w) Hheld) as [B1 B2]. cbv zeta in B1, B2.
       destruct HA as [A1 A2]. rewrite B1, B2, A2.
-      apply (QC_scan (queue w)); [|exact Cw]. rewrite A1, A2 in HQ. exact HQ.
+      apply (QC_scan true (queue w)); [|exact Cw]. rewrite A1, A2 in HQ. exact HQ.
     + normt Hs' Ht. c_same HQ Kt.
   - (* UsRelLoad *) cbn [fst]. normt Hs' Ht. c_same HQ Kt. exact HA.
   - (* UsRelCas *) destruct Hok as (_ & (Hlate & _)). cas_split w; normt Hs' Ht.
@@ -237,10 +248,12 @@ Proof.
       cbn [t_pc word queue]. rewrite Er. split; [|destruct (wake u); exact I].
       subst old. destruct (unlock_slow_cas3_bits u (word w) Hlate) as [B1 B2]. cbv zeta in B1, B2.
       rewrite B1, B2, C1, S1, S2, andb_false_r, !orb_false_r.
-      apply (QC_release (tb1 (word w)) (tb2 (word w))); [exact HQ | rewrite Kt; reflexivity | reflexivity |].
-      intros Nq. pose proof HQ as (_ & _ & C & _ & Q5 & _). rewrite (Q5 Nq).
-      destruct (tb2 (clear_on u)) eqn:Ec; [|reflexivity]. exfalso. apply Nq.
-      apply (C t true); [rewrite Kt; cbn [role_of rel]; rewrite Ec; reflexivity | reflexivity].
+      apply (QC_release (tb1 (word w)) (tb2 (word w))); [exact HQ | rewrite Kt; reflexivity | reflexivity | |].
+      * intros Nq. pose proof HQ as (_ & _ & C & _ & Q5 & _). rewrite (Q5 Nq).
+        destruct (tb2 (clear_on u)) eqn:Ec; [|reflexivity]. exfalso. apply Nq.
+        apply (C t true); [rewrite Kt; cbn [role_of rel]; rewrite Ec; reflexivity | reflexivity].
+      * intros Hb E. pose proof HQ as (_ & _ & C & _). apply andb_prop in Hb. destruct Hb as [_ Hb].
+        apply negb_true_iff in Hb. apply (C t (tb2 (clear_on u))) in E; [congruence | rewrite Kt; reflexivity].
     + c_same HQ Kt. exact HA.
   - (* UsWakeStore *) destruct (wake u) as [|p rest] eqn:Ew; cbn [fst]; normt Hs' Ht; c_same HQ Kt.
   - (* UsWakeV *) cbn [fst]. normt Hs' Ht.
@@ -288,14 +301,18 @@ End StepQC2.
 (* Part 3: the invariant over the wrapper                              *)
 (* ================================================================== *)
 (* role of a thread: a thread inside wake_waiters between its acquiring CAS and its releasing CAS owns the mutex
-   spinlock and has set MU_WAITING (like an enqueuer of nsync_mu_lock_slow_ that is not itself on the queue) *)
+   spinlock like a releaser of nsync_mu_unlock_slow_ after its scan (with an empty wake list): its release clears
+   MU_WAITING exactly when it leaves the queue empty *)
 Definition xkr (xp : xpc) (p : pc) : role :=
-  match xp with XvLoad3 _ | XvCas2 _ _ | XvLoad5 _ => Renq0 | _ => role_of p end.
+  match xp with XvLoad3 k | XvCas2 k _ | XvLoad5 k => Rrel [] (tb2 (k_clr k)) | _ => role_of p end.
 Definition xk (xw : xworld) (t : nat) : role := xkr (x_pc (xget xw t)) (t_pc (get (mw xw) t)).
 Definition xpcA (xp : xpc) : Prop :=
   match xp with
   | XvCas1 _ old => tb1 old = false
-  | XvLoad3 k | XvCas2 k _ | XvLoad5 k => k_set k = 0 \/ k_set k = MU_WRITER_WAITING
+  | XvLoad3 k | XvCas2 k _ | XvLoad5 k =>
+      (k_set k = 0 \/ k_set k = MU_WRITER_WAITING) /\
+      (k_clr k = MU_SPINLOCK \/ k_clr k = bor MU_SPINLOCK MU_WAITING) /\
+      (k_set k = MU_WRITER_WAITING -> k_clr k = MU_SPINLOCK)
   | _ => True
   end.
 Definition SInv (xw : xworld) : Prop :=
@@ -363,13 +380,37 @@ Proof.
   rewrite !orb_true_r. split; reflexivity.
 Qed.
 
-Lemma wake_cas2_bits old s : s = 0 \/ s = MU_WRITER_WAITING ->
-  tb1 (wake_waiters_cas2_new old s) = false /\ tb2 (wake_waiters_cas2_new old s) = tb2 old.
+Lemma wake_cas2_bits old s c : s = 0 \/ s = MU_WRITER_WAITING -> c = MU_SPINLOCK \/ c = bor MU_SPINLOCK MU_WAITING ->
+  tb1 (wake_waiters_cas2_new old s c) = false /\ tb2 (wake_waiters_cas2_new old s c) = tb2 old && negb (tb2 c).
 Proof.
-  intros Hs. rewrite wake_cas2_new_eq. tbs.
-  change (Z.testbit 2 1) with true. change (Z.testbit 2 2) with false.
-  split; [apply andb_false_r|]. rewrite andb_true_r. destruct Hs as [-> | ->]; [|change (Z.testbit MU_WRITER_WAITING 2) with false]; 
-    rewrite ?Z.testbit_0_l; apply orb_false_r.
+  intros Hs Hc. rewrite wake_cas2_new_eq. tbs.
+  assert (Z.testbit c 1 = true) as C1 by (destruct Hc as [-> | ->]; reflexivity).
+  assert (Z.testbit s 2 = false) as S2 by (destruct Hs as [-> | ->]; reflexivity).
+  rewrite C1, S2, orb_false_r. split; [apply andb_false_r | reflexivity].
+Qed.
+
+(* set_on_release = MU_WRITER_WAITING only if a writer was transferred *)
+Lemma xfer_rest_taw ty fca fw q : forall a b,
+  snd (fst (xfer_rest ty fca fw q a b)) = true -> a = true \/ fst (fst (fst (xfer_rest ty fca fw q a b))) <> [].
+Proof.
+  induction q as [|p rest IH]; intros a b; cbn [xfer_rest]; [cbn [fst snd]; auto|].
+  destruct (fca || fw || mode_eqb (ty p) W).
+  - specialize (IH (a || mode_eqb (ty p) W) b).
+    destruct (xfer_rest ty fca fw rest (a || mode_eqb (ty p) W) b) as [[[m s] a'] b']. cbn [fst snd] in *.
+    intros _. right. discriminate.
+  - specialize (IH a (b || negb (mode_eqb (ty p) W))).
+    destruct (xfer_rest ty fca fw rest a (b || negb (mode_eqb (ty p) W))) as [[[m s] a'] b']. cbn [fst snd] in *. exact IH.
+Qed.
+
+Lemma xfer_ww_moved ty fca wk : snd (xfer ty fca wk) = MU_WRITER_WAITING -> fst (fst (xfer ty fca wk)) <> [].
+Proof.
+  unfold xfer. destruct wk as [|f rest]; [cbn [snd]; discriminate|].
+  pose proof (xfer_rest_taw ty fca (mode_eqb (ty f) W) rest (if fca then mode_eqb (ty f) W else false)
+                (if fca then false else negb (mode_eqb (ty f) W))) as IH.
+  destruct (xfer_rest ty fca (mode_eqb (ty f) W) rest (if fca then mode_eqb (ty f) W else false)
+              (if fca then false else negb (mode_eqb (ty f) W))) as [[[m s] a] b].
+  cbn [fst snd] in *. destruct a; [|cbn [andb]; intros X; discriminate X].
+  intros _. destruct (IH eq_refl) as [E | E]; destruct fca; try discriminate; exact E.
 Qed.
 
 Lemma xfer_set_cases ty fca wk : snd (xfer ty fca wk) = 0 \/ snd (xfer ty fca wk) = MU_WRITER_WAITING.
@@ -482,31 +523,37 @@ Proof.
     unfold cas. destruct (wake_cas_old_eq old) as [-> _].
     destruct (Z.eqb_spec (word (mw xw)) old) as [Hc|Hc]; cbv beta iota.
     + pose proof (xfer_set_cases (wtype (mw xw)) (first_cant_acquire (wtype (mw xw)) old (k_wake k)) (k_wake k)) as Hs.
+      pose proof (xfer_ww_moved (wtype (mw xw)) (first_cant_acquire (wtype (mw xw)) old (k_wake k)) (k_wake k)) as Hm.
       destruct (xfer (wtype (mw xw)) (first_cant_acquire (wtype (mw xw)) old (k_wake k)) (k_wake k)) as [[moved stay] set_on].
-      cbn [snd] in Hs. cbn [fst]. xn Hx.
-      apply SInv_intro; [exact H1 | exact Ht | sframe | | apply HA | exact Hs].
-      cbn [x_pc xkr word queue set_queue set_word]. destruct (wake_cas1_bits old) as [B1 B2]. rewrite B1, B2.
-      assert (QC false (tb2 (word (mw xw))) (queue (mw xw)) (xk xw)) as HQ0.
-      { cbn [xpcA] in HXt. rewrite <- HXt, <- Hc. exact HQ. }
-      pose proof (QC_take _ _ _ t Renq0 HQ0 eq_refl eq_refl eq_refl) as HQ1.
-      apply (QC_enqueue _ _ _ (queue (mw xw) ++ moved) _ t Renq0) in HQ1;
-        [| rewrite fupd_same; reflexivity | reflexivity | reflexivity | discriminate].
-      eapply QC_ext; [|exact HQ1]. intros t'. unfold fupd. destruct (Nat.eqb t' t); reflexivity.
+      cbn [fst snd] in Hs, Hm. cbn [fst]. xn Hx.
+      apply SInv_intro; [exact H1 | exact Ht | sframe | | apply HA |].
+      * cbn [x_pc xkr word queue set_queue set_word k_clr]. destruct (wake_cas1_bits old) as [B1 B2]. rewrite B1, B2.
+        assert (QC false (tb2 (word (mw xw))) (queue (mw xw)) (xk xw)) as HQ0.
+        { cbn [xpcA] in HXt. rewrite <- HXt, <- Hc. exact HQ. }
+        apply (QC_scan (tb2 (word (mw xw))) (queue (mw xw))); [exact HQ0|].
+        destruct (queue (mw xw) ++ moved); split; intros X; first [reflexivity | discriminate X].
+      * cbn [x_pc xpcA k_set k_clr queue set_word]. split; [exact Hs|]. split.
+        -- destruct (queue (mw xw) ++ moved); auto.
+        -- intros E. destruct (queue (mw xw) ++ moved) eqn:Eq; [|reflexivity].
+           apply app_eq_nil in Eq. destruct Eq as [_ Eq]. elim (Hm E). exact Eq.
     + cbn [fst]. xn Hx. unfold wake_loop; destruct (k_wake k); ssame H1 Ht Hx' HA.
   - (* XvLoad3 *) assert (t < length (xthr xw))%nat as Ht by (apply HtN; discriminate).
     cbn [fst]; xn Hx; ssame H1 Ht Hx' HA. exact HXt.
   - (* XvCas2 *) assert (t < length (xthr xw))%nat as Ht by (apply HtN; discriminate). destruct Hp as [PI _].
     unfold cas. destruct (wake_cas_old_eq old) as [_ ->].
     destruct (Z.eqb_spec (word (mw xw)) old) as [Hc|Hc]; cbv beta iota; cbn [fst]; xn Hx.
-    + cbn [xpcA] in HXt. destruct (wake_cas2_bits old (k_set k) HXt) as [B1 B2].
+    + cbn [xpcA] in HXt. destruct HXt as (Hs & Hcl & _). destruct (wake_cas2_bits old (k_set k) (k_clr k) Hs Hcl) as [B1 B2].
       apply SInv_intro; [exact H1 | exact Ht | sframe | | apply HA | unfold wake_loop; destruct (k_wake k); exact I].
       cbn [word queue set_word]. rewrite B1, B2.
-      assert (xkr (x_pc {| x_pc := wake_loop k; x_ops := xo; x_rets := xr |}) (t_pc (get (set_word (mw xw) (wake_waiters_cas2_new old (k_set k))) t)) = Rwake []) as ->.
-      { change (get (set_word (mw xw) (wake_waiters_cas2_new old (k_set k))) t) with (get (mw xw) t). rewrite PI.
+      assert (xkr (x_pc {| x_pc := wake_loop k; x_ops := xo; x_rets := xr |}) (t_pc (get (set_word (mw xw) (wake_waiters_cas2_new old (k_set k) (k_clr k))) t)) = Rwake []) as ->.
+      { change (get (set_word (mw xw) (wake_waiters_cas2_new old (k_set k) (k_clr k))) t) with (get (mw xw) t). rewrite PI.
         unfold wake_loop. destruct (k_wake k); reflexivity. }
-      subst old. apply (QC_release (tb1 (word (mw xw))) (tb2 (word (mw xw)))); [exact HQ | | reflexivity |].
-      * unfold xk. rewrite Hx'. reflexivity.
-      * destruct HQ as (_ & _ & _ & _ & Q5 & _). exact Q5.
+      assert (xk xw t = Rrel [] (tb2 (k_clr k))) as Kt by (unfold xk; rewrite Hx'; reflexivity).
+      pose proof HQ as (_ & _ & C & _ & Q5 & _). specialize (C t (tb2 (k_clr k)) ltac:(rewrite Kt; reflexivity)).
+      subst old. apply (QC_release (tb1 (word (mw xw))) (tb2 (word (mw xw)))); [exact HQ | | reflexivity | |].
+      * rewrite Kt. reflexivity.
+      * intros Nq. rewrite (Q5 Nq). destruct (tb2 (k_clr k)); [exfalso; apply Nq, C; reflexivity | reflexivity].
+      * intros Hb E. apply andb_prop in Hb. destruct Hb as [_ Hb]. apply negb_true_iff in Hb. apply C in E. congruence.
     + ssame H1 Ht Hx' HA. exact HXt.
   - (* XvLoad5 *) assert (t < length (xthr xw))%nat as Ht by (apply HtN; discriminate).
     cbn [fst]; xn Hx; ssame H1 Ht Hx' HA. exact HXt.
@@ -544,7 +591,8 @@ Proof.
   - assert (forall t, xk (xinit progs) t = Rwake []) as K by (intros t; unfold xk; rewrite PX, PM; reflexivity).
     qc_split; try (intros t; rewrite K; discriminate);
       try (intros t1 t2; rewrite K; discriminate); try (intros t cw; rewrite K; discriminate).
-    intros H. now elim H.
+    + intros H. now elim H.
+    + intros _ E. discriminate E.
   - intros t. rewrite PM. exact I.
   - intros t. rewrite PX. exact I.
 Qed.
@@ -575,6 +623,17 @@ Lemma queue_sets_waiting : forall progs sched,
 Proof.
   intros progs sched H xw Nq. destruct (xreachable_sinv progs sched H) as ((_ & _ & _ & _ & Q5 & _) & _). fold xw in Q5.
   rewrite has_waiting. apply Q5, Nq.
+Qed.
+
+(* ... and conversely (MuProof2's last QB clause, true of the wrapper since wake_waiters takes MU_WAITING back when it
+   transferred nobody onto an empty queue): with the spinlock free, MU_WAITING is set only over a non-empty queue *)
+Lemma waiting_only_if_queued : forall progs sched,
+  Z.of_nat (length progs) < 2 ^ 24 - 1 ->
+  let xw := xrun (xinit progs) sched in
+  has (word (mw xw)) MU_SPINLOCK = false -> has (word (mw xw)) MU_WAITING = true -> queue (mw xw) <> [].
+Proof.
+  intros progs sched H xw S W. destruct (xreachable_sinv progs sched H) as ((_ & _ & _ & _ & _ & _ & Q6) & _). fold xw in Q6.
+  rewrite has_spin in S. rewrite has_waiting in W. apply Q6; assumption.
 Qed.
 
 (* a transferred waiter asleep in a quiescent world, its flag still set, is on the mutex queue, MU_WAITING is set, and
